@@ -429,3 +429,11 @@ func (b *simBody) Close() error {
 	}
 	return nil
 }
+
+// dropPending marks every planned but unused attempt as consumed, so that a
+// later operation of a history cannot be answered from an earlier plan.
+func (n *Net) dropPending() {
+	for _, sl := range n.slots {
+		sl.next = len(sl.xs)
+	}
+}
